@@ -221,6 +221,8 @@ class Timeline:
         self.unregs = []    # t unregister called on the FD
         self.unreg_processed = []
         self.calls = []     # (t, 'register'|'unregister', bbmd) API calls on the foreign device
+        self.reg_seq = []   # log sequence numbers parallel to regs / deletes: order inside one instant
+        self.delete_seq = []
 
 
 def build_timelines(desc, ex):
@@ -242,12 +244,14 @@ def build_timelines(desc, ex):
                 if v['ttl'] == 0:
                     tl[fd].unreg_processed.append((f['t'], node))
                 tl[fd].regs.append((f['t'], v['ttl'], node))
+                tl[fd].reg_seq.append(f['seq'])
         elif v['fn'] == wire.BV_RESULT and node in tl and v.get('code') == 0:
             tl[node].acks.append(f['t'])
         elif v['fn'] == wire.BV_DELETE_FDT and 'entry' in v:
             fd = ip_to_label.get(v['entry'][0])
             if fd in tl:
                 tl[fd].deletes.append((f['t'], node))
+                tl[fd].delete_seq.append(f['seq'])
     for (seq, t, ev) in ex['ev_log']:
         if ev['ev'] == 'unregister' and ev['node'] in tl:
             tl[ev['node']].unregs.append(t)
@@ -457,26 +461,30 @@ def check(desc, ex):
     # --- C13.c (tight, sound for ANY grace value): a Read-FDT-Ack declares, per entry, the seconds remaining before the BBMD
     # purges it; once that time has passed without a new registration the entry must be neither listed nor served
     EPS_P = 0.3
-    for bb_label in sorted(set(ip_to_label.get(a[2][0]) for a in acks)):
+    for bb_label in sorted(n['label'] for n in lay['nodes'] if n['kind'] == 'bbmd'):
         if bb_label is None:
             continue
-        promise = {}        # fd label -> deadline
-        my_acks = [(t, fdt) for (seq, t, src, fdt) in acks if ip_to_label.get(src[0]) == bb_label]
-        regs_at = {fd: sorted(r[0] for r in T.regs if r[2] == bb_label) for fd, T in tl.items()}
+        promise = {}        # fd label -> (deadline, t declared, remaining declared, log seq of the declaration)
+        # declarations count from the instant the BBMD EMITS the Read-FDT-Ack (a registration may arrive while it travels);
+        # "a registration since" is decided by log order, not by time
+        my_acks = []
         fwd = []
         for f in w.tx:
             if f['node'] == bb_label:
                 v = wire.decode_bvll(f['octets'])
                 if v is not None and v['fn'] == wire.BV_FORWARDED:
                     fwd.append((f['t'], f['dst']))
-        for (t, fdt) in sorted(my_acks, key=lambda x: x[0]):
+                elif v is not None and v['fn'] == wire.BV_READ_FDT_ACK:
+                    my_acks.append((f['seq'], f['t'], v['fdt']))
+        regs_at = {fd: sorted((T.reg_seq[ri], r[0]) for ri, r in enumerate(T.regs) if r[2] == bb_label) for fd, T in tl.items()}
+        for (sq, t, fdt) in sorted(my_acks):
             listed_now = {}
             for (ip, ttl, rem) in fdt:
                 fd = ip_to_label.get(ip[0])
                 if fd in tl:
                     listed_now[fd] = rem
-            for fd, (deadline, t_decl, rem_decl) in list(promise.items()):
-                renewed = any(t_decl - 1e-6 <= r <= t + 1e-6 for r in regs_at.get(fd, []))
+            for fd, (deadline, t_decl, rem_decl, sq_decl) in list(promise.items()):
+                renewed = any(sq_decl < rs < sq for (rs, rt) in regs_at.get(fd, []))
                 if renewed:
                     del promise[fd]
                     continue
@@ -484,10 +492,10 @@ def check(desc, ex):
                     viol('C13.c', 'listed-beyond-declared-remaining', 'Read-FDT of %s at t=%.2f still lists %s although at t=%.2f it declared only %d s remaining for it and no registration arrived since'
                          % (bb_label, t, fd, t_decl, rem_decl))
             for fd, rem in listed_now.items():
-                if fd not in promise or any(promise[fd][1] - 1e-6 <= r <= t + 1e-6 for r in regs_at.get(fd, [])):
-                    promise[fd] = (t + rem + EPS_P, t, rem)
-        for fd, (deadline, t_decl, rem_decl) in promise.items():
-            nxt = min([r for r in regs_at.get(fd, []) if r >= t_decl - 1e-6] or [1e18])
+                if fd not in promise:
+                    promise[fd] = (t + rem + EPS_P, t, rem, sq)
+        for fd, (deadline, t_decl, rem_decl, sq_decl) in promise.items():
+            nxt = min([rt for (rs, rt) in regs_at.get(fd, []) if rs > sq_decl] or [1e18])
             fd_ip = ipstr(Address(nodes[fd]['addr']).addrTuple)
             late = [tf for (tf, dst) in fwd if dst == fd_ip and deadline < tf < nxt]
             if late:
@@ -511,8 +519,9 @@ def check(desc, ex):
     # --- C13.e: nothing forwarded TO the FD between a processed Delete-FDT-Entry and its next registration
     for fd_label, T in tl.items():
         fd_ip = Address(nodes[fd_label]['addr']).addrTuple
-        for (td, bb_label) in T.deletes:
-            nxt = min([r[0] for r in T.regs if r[0] > td and r[2] == bb_label] or [1e18])
+        for di, (td, bb_label) in enumerate(T.deletes):
+            # the next registration processed by that BBMD after the deletion (log order decides inside one instant)
+            nxt = min([r[0] for ri, r in enumerate(T.regs) if r[2] == bb_label and T.reg_seq[ri] > T.delete_seq[di]] or [1e18])
             for f in w.tx:
                 if f['node'] != bb_label or not (td + 1e-6 < f['t'] < nxt - 1e-6):
                     continue
